@@ -30,6 +30,9 @@ ASSUMPTIONS = [
     "10**x[i] in chi2_fcn (scalar pow) and 10.**np.array(best.x) (array pow) are the same float: both are kept symbolic (Pow10) in the model",
     "likelihood.negloglike / eq_numpy do not raise in the NaN-on-data sweep (a raise there is the generic `except Exception` -> NaN row)",
     "count_params is modelled on the list of occurring 'a<j>' substrings, not on strings",
+    "previous_eqns_<comp>.txt exists when comp > 1 and ignore_previous_eqns (a missing file raises before the try block; not modelled)",
+    "the iteration that trips the 50-infinities test is left before the best-update, so a -inf arriving as the 50th infinity is dropped "
+    "(C10_neginf_dropped_witness, replayed on the real code by a directed script); a likelihood bounded below never produces it",
     "search(): real fits on Gaussian data are testing, not proof",
 ]
 
@@ -403,6 +406,8 @@ def main_rows(ctx, r):
             has = "[true]" if k == "value" else "[]"
             sym1 = {"ret": "(SymOk false)", "name": "(SymExc EName)", "name-then-ret": "(SymExc EName)", "value": "(SymOk true)",
                     "other": "(SymExc EOther)", "timeout": "(SymExc ETimeout)"}[k]
+            if k == "name-then-ret" and not try_int:     # the stub raises NameError only when asked to integrate
+                sym1 = "(SymOk false)"
             sym2 = "(SymOk false)" if k == "name-then-ret" else sym1
             terms.append("(%s, %s, %s, %s, %s, %s)" % (has, sym1, sym2, xz(v), xz(gv), zl(gp)))
         v = ("Require Import String.\nFrom ESRV Require Import Common.XZ Common.Corr Model.Optimise.\nOpen Scope Z_scope.\n"
@@ -474,9 +479,9 @@ def fit_jobs(ctx):
                 for s in range(nseeds):
                     # magnitudes inside the search box: pmin=0, pmax=3 is 1..1000 in log space, 0..3 in linear space
                     if log_opt and npar <= 2:
-                        mags = [10 ** r.uniform(0.2, 1.5) for _ in range(npar)]
+                        mags = [10 ** r.uniform(0.05, 2.95) for _ in range(npar)]
                     else:
-                        mags = [r.uniform(0.5, 2.8) for _ in range(npar)]
+                        mags = [r.uniform(0.05, 2.95) for _ in range(npar)]
                     jobs.append(dict(model=model, true=[sg * m for sg, m in zip(signs, mags)], log_opt=log_opt, pmin=0, pmax=3,
                                      seed=r.randrange(2 ** 31), data_seed=r.randrange(2 ** 31), sigma=0.5, npoints=24))
     return jobs
@@ -500,9 +505,36 @@ def run_fits(ctx, jobs):
     return out
 
 
+PARAMFREE = ["x", "x**2", "inv(x)", "x+x**2", "pow(x,x)"]
+NAN_ON_DATA = ["(-x-a0**2)**0.5", "(-x-a0**2-a1**2)**0.5", "(-x-a0**2)**0.5+a1+a2"]
+
+
+def direct_checks(ctx):
+    """Parameter-free functions are evaluated directly; functions NaN on the data give +inf (real likelihood, real minimize)."""
+    rep = ctx.report
+    r = esrv.rng(ctx.seed, "C10-direct")
+    job = dict(data_seed=r.randrange(2 ** 31), functions=PARAMFREE + NAN_ON_DATA)
+    rc, out, err = esrv.run_py(ctx.scratch, IMPL, ["direct"], stdin=json.dumps(job), timeout=900)
+    if rc != 0:
+        rep.fail("broken-correspondence", "direct driver failed", "C10:direct-driver", observed=err[-1500:], theorem="search")
+        return
+    for o in json.loads(out):
+        rep.case(key=("direct", o["fcn"], o["log_opt"]), sample={"TESTING": "direct", **o})
+        zero = all(q == 0 for q in o["params"]) and o["minimize_calls"] == 0
+        if o["fcn"] in PARAMFREE:
+            if not (zero and o["value"] == o["direct"]):
+                rep.fail("failing-input", "parameter-free function %s is not evaluated directly" % o["fcn"], "C10:paramfree-not-direct",
+                         input=dict(job, fcn=o["fcn"]), observed=o, expected="value == negloglike([]) , zero parameters, no minimize call")
+        else:
+            if not (zero and o["value"] == float("inf")):
+                rep.fail("failing-input", "function %s is NaN on the data for every parameter sign but is not reported as +inf" % o["fcn"],
+                         "C10:nan-on-data-not-inf", input=dict(job, fcn=o["fcn"]), observed=o, expected="(+inf, zeros), no minimize call")
+
+
 def search(ctx):
     rep = ctx.report
     spec_scripts(ctx)
+    direct_checks(ctx)
     jobs = fit_jobs(ctx)
     res = run_fits(ctx, jobs)
     nfit = nmiss = 0
